@@ -367,8 +367,20 @@ class Walker:
             cur = set(states)
             # children: coroutine descendants created in this body that are not awaited directly
             awaited = {prog.body_of_type(bi.body, x.fut_ty) for x in bi.awaits}
+            # a descendant that is handed to tokio::spawn (here, or in a plain closure of this body such as the initialiser of a
+            # OnceLock) is a task of its own: it is not dropped with this await
+            tasks = set()
+            for d0 in [bi.body.id] + list(prog.facts.descendants(bi.body.id)):
+                di0 = prog.info(d0)
+                if di0 is None:
+                    continue
+                for sp0 in di0.spawns:
+                    if sp0.task is not None:
+                        tasks |= set(prog.cone(sp0.task, follow=("call", "closure", "poll")))
             for d in prog.facts.descendants(bi.body.id):
                 db = prog.facts.body(d)
+                if d in tasks:
+                    continue
                 if db is not None and db.coroutine and d not in awaited:
                     cur = cur | self.run(d, cur)
                     cur = cur | self._apply(cur, Event("Y", cls, bi.loc(a.poll_bb)))
